@@ -152,7 +152,15 @@ def main(argv):
             if line == "PANIC":
                 mfail.append({"what": "render panicked", "sequence": key})
                 break
+            after = None
+            if " after=" in line:
+                line, after = line.rsplit(" after=", 1)
             body, n, sc = line.rsplit(" ", 2)
+            # a finished render releases every reactive node it created: once the render has returned / the stream has ended no more
+            # nodes are alive in its root than when the render started
+            if after not in (None, "-") and int(after) > int(n.split("=")[1]):
+                mfail.append({"what": "a finished render did not release the reactive nodes it created", "render": " ".join(e),
+                              "live_at_start": int(n.split("=")[1]), "live_after_finish": int(after)})
             mode = e[0] if e[0] == "sync" else e[1]
             if sc != "sc=0,1":
                 mfail.append({"what": "the stable counter did not restart for this render", "render": " ".join(e), "values": sc, "sequence": key})
